@@ -786,7 +786,7 @@ fn facts(rep: &mut Report, tier: &str) {
 
     // multi-parameter signatures: random parameter lists over the family, both
     // directions (declared signature, registered-function call)
-    let n = if tier == "thorough" { 1500 } else { 250 };
+    let n = if tier == "thorough" { 6000 } else { 400 };
     let mut p = Prng::new(0xC05);
     let leaves: Vec<&D> = descs.iter().map(|x| &x.0).collect();
     for i in 0..n {
@@ -923,9 +923,12 @@ fn rtcall_check<T: BT>(drv: &mut Driver, rep: &mut Report, hl: &str) {
 }
 
 /// value-level model: `untransform ∘ transform` and the script's view on the
-/// abstract image of generated values
+/// abstract image of generated values, and the placement model against the
+/// real bytes: at every offset where the model puts a discriminant, the real
+/// transformed value holds that discriminant.
 fn roundtrip_model(rep: &mut Report, seed: u64, rounds: u32) {
     let mut drv = Driver::spawn().expect("spawn rotov-driver");
+    let hl = host_layouts();
     macro_rules! rt { ($($t:ty);* $(;)?) => { $( {
         let d = <$t as BT>::desc();
         if d.depth() > 0 {
@@ -940,6 +943,27 @@ fn roundtrip_model(rep: &mut Report, seed: u64, rounds: u32) {
                     rep.mismatch("model: untransform(transform v) or the script view differs from v", json!({"type": d.roto(), "value": a, "model": ans}));
                     break;
                 }
+                let ans = drv.ask(&format!("c05 place {hl} {} ; {a}", d.lean()));
+                rep.evaluations += 1;
+                let (rust, roto) = match ans.strip_prefix("rust ").and_then(|s| s.split_once(" roto ")) {
+                    Some(x) => x,
+                    None => { rep.mismatch("model: no placement for a generated value", json!({"type": d.roto(), "value": a, "model": ans})); break; }
+                };
+                if rust != roto || rust == "none" {
+                    rep.mismatch("model: Rust-side and Roto-side placements differ", json!({"type": d.roto(), "value": a, "model": ans}));
+                    break;
+                }
+                let tags: Vec<(usize, u8)> = rust.split(',').filter_map(|c| {
+                    let (o, cell) = c.split_once(':')?;
+                    Some((o.parse().ok()?, cell.strip_prefix('t')?.parse().ok()?))
+                }).collect();
+                let real = v.peek(&tags.iter().map(|t| t.0).collect::<Vec<_>>());
+                if real != tags.iter().map(|t| t.1).collect::<Vec<_>>() {
+                    rep.mismatch("the discriminant bytes of the real transformed value are not where the placement model puts them",
+                        json!({"type": d.roto(), "value": v.show(), "model": ans, "real_bytes_at_those_offsets": real}));
+                    break;
+                }
+                if k == 0 { rep.class(format!("placement:{}", d.class())); }
             }
         }
     } )* } }
@@ -989,7 +1013,7 @@ fn main() {
                 libc::setrlimit(libc::RLIMIT_CORE, &lim);
             }
             let seed: u64 = args[2].parse().unwrap();
-            let rounds = if args[3] == "thorough" { 64 } else { 24 };
+            let rounds = if args[3] == "thorough" { 400 } else { 40 };
             let (from, n): (u64, u64) = (args[4].parse().unwrap(), args[5].parse().unwrap());
             run_range(&Env { seed, rounds }, from, n).emit();
         }
@@ -998,7 +1022,7 @@ fn main() {
             let tier = args.get(3).cloned().unwrap_or("quick".into());
             let mut rep = Report::default();
             facts(&mut rep, &tier);
-            roundtrip_model(&mut rep, seed.parse().unwrap(), if tier == "thorough" { 40 } else { 8 });
+            roundtrip_model(&mut rep, seed.parse().unwrap(), if tier == "thorough" { 200 } else { 24 });
             let total = cases().len() as u64;
             let names: Vec<String> = cases().into_iter().map(|c| c.name).collect();
             // crash-isolated batches; a tree on which many cases die is not explored to the end
